@@ -22,6 +22,7 @@ const (
 var stNames = []string{"Idle", "Running", "Failed", "Succeeded"}
 
 type kTok struct {
+	ctxID     int // root context it was started under
 	id        int
 	rec       *kRec
 	stale     bool // r.ctx was reset or overwritten: exit not recorded
@@ -59,6 +60,7 @@ type kRec struct {
 
 type kModel struct {
 	ctxID int
+	dead  map[int]bool // root contexts cancelled by their owner (Keyed keeps using them)
 	delay time.Duration
 	bo    []int // scripted back-off per record (ms; -1 = Stop); nil = none
 	behs  []string
@@ -111,6 +113,28 @@ func (m *kModel) stopTimer(t **kTimer) {
 	*t = nil
 }
 
+// CancelRoot: the owner of root context cid cancelled it; every instance derived
+// from it is cancelled at once, the container keeps the context.
+func (m *kModel) CancelRoot(cid int) {
+	if m.dead == nil {
+		m.dead = map[int]bool{}
+	}
+	m.dead[cid] = true
+	for _, t := range m.toks {
+		if t.ctxID == cid && !t.recorded {
+			t.cancelled = true
+		}
+	}
+}
+
+// normalize mirrors "if k.ctx != nil && k.ctx.Err() != nil { k.ctx = nil }", which
+// SyncKeys and the per-key reset / restart helpers perform on entry.
+func (m *kModel) normalize() {
+	if m.ctxID != 0 && m.dead[m.ctxID] {
+		m.ctxID = 0
+	}
+}
+
 func (m *kModel) cancelTok(r *kRec) {
 	if r.tok != nil && !r.tok.recorded {
 		r.tok.cancelled = true
@@ -143,7 +167,8 @@ func (m *kModel) start(r *kRec, force bool) bool {
 	}
 	r.status = stRunning
 	r.err = nil
-	t := &kTok{id: len(m.toks), rec: r}
+	t := &kTok{id: len(m.toks), rec: r, ctxID: m.ctxID}
+	t.cancelled = m.dead[m.ctxID] // started under a dead root context: never enters the routine
 	m.toks = append(m.toks, t)
 	m.unbound[r.key] = append(m.unbound[r.key], t)
 	r.tok = t
@@ -239,6 +264,7 @@ func (m *kModel) RemoveKey(key int) bool {
 
 // SyncKeys returns (added in order, removed as sorted set).
 func (m *kModel) SyncKeys(keys []int, restart bool) (added, removed []int) {
+	m.normalize()
 	seen := map[int]bool{}
 	for _, key := range keys {
 		if seen[key] {
@@ -268,6 +294,7 @@ func (m *kModel) SyncKeys(keys []int, restart bool) (added, removed []int) {
 
 // ResetRoutine returns (existed, reset).
 func (m *kModel) ResetRoutine(key int, matched bool) (bool, bool) {
+	m.normalize()
 	r, existed := m.recs[key]
 	if !existed {
 		return false, false
@@ -291,6 +318,7 @@ func (m *kModel) ResetRoutine(key int, matched bool) (bool, bool) {
 
 // RestartRoutine returns (existed, reset).
 func (m *kModel) RestartRoutine(key int, matched bool) (bool, bool) {
+	m.normalize()
 	r, existed := m.recs[key]
 	if !existed {
 		return false, false
